@@ -32,10 +32,33 @@ _DECIDING_KEYS = ("race:search-panic", "race:list-panic")
 _RACE_CMD = "go test -race -run TestVerifC19Race$ ./search (overlay harness/overlay/search/zz_verif_c19race_test.go)"
 
 
+def _go_test_full_log(ctx, run, n, timeout, out_name):
+    """like vf.go_harness(race=True) but keeps the WHOLE output: the cause of a crash (fatal error / unexpected fault
+    address) is printed before a goroutine dump that can be far longer than the tail vf.go_harness keeps"""
+    import json
+    import os
+    ov = vf.make_overlay(ctx, "search", FILES)
+    outp = os.path.join(ctx.tmp, out_name)
+    if os.path.exists(outp):
+        os.remove(outp)
+    e = vf.go_env({"VERIF_OUT": outp, "VERIF_SEED": str(ctx.seed), "VERIF_N": str(n), "VERIF_TIER": ctx.tier,
+                   "VERIF_TMP": ctx.tmp, "VERIF_ROOT": vf.ROOT})
+    cmd = ["go", "test", "-overlay", ov, "-count=1", "-vet=off", "-run", run, "-timeout", "%ds" % timeout, "-race", "./search"]
+    rc, log = vf.sh(cmd, cwd=vf.REPO, env=e, timeout=timeout + 120)
+    recs = []
+    if os.path.exists(outp):
+        for line in open(outp, errors="replace"):
+            try:
+                recs.append(json.loads(line))
+            except Exception:
+                pass
+    return dict(rc=rc, log=log, records=recs)
+
+
 def race_stress(ctx):
     """-race stress run of the real directory searcher (supporting evidence for the runtime half).
     Returns (deciding failures, coverage record)."""
-    hr = vf.go_harness(ctx, "search", "TestVerifC19Race$", FILES, 240, race=True, timeout=540, out_name="race.jsonl")
+    hr = _go_test_full_log(ctx, "TestVerifC19Race$", 240, timeout=540, out_name="race.jsonl")
     deciding, soft, info = [], [], {}
     for r in hr["records"]:
         if r.get("kind") == "oracle_fail":
@@ -52,8 +75,10 @@ def race_stress(ctx):
     m = _CRASH_RE.search(log) if hr["rc"] not in (0, 124) else None
     if m and "test timed out" in m.group(1):     # go test's own watchdog: the run did not finish, nothing crashed
         m = None
+    if not m and hr["rc"] not in (0, 124) and not info.get("race_stress") and "--- FAIL" not in log and "test timed out" not in log:
+        m = re.search(r"^FAIL\s+\S+/search[^\n]*", log, re.M)   # the test binary died without a test failure message
     if m and not deciding:
-        deciding.append(dict(key="race:crash", what="the process crashed during concurrent reloads and searches: " + m.group(1)[:200],
+        deciding.append(dict(key="race:crash", what="the process crashed during concurrent reloads and searches: " + m.group(0)[:200],
                              replay=dict(seed=ctx.seed, run=_RACE_CMD, log=log[max(0, m.start() - 200):m.start() + 3500])))
     rec = dict(info.get("race_stress", {}), rc=hr["rc"], race_detector=True, completed=bool(info.get("race_stress")),
                data_race=data_race, crash=bool(m),
